@@ -389,3 +389,63 @@ def r_tailchk(repo, tier):
     if nsl < 55:
         raise AnalysisError("R-TAILCHK: only %d bounded tail slices found (>=55 expected)" % nsl)
     return out
+
+
+def r_overguard(repo, tier):
+    """converse of R-TAILCHK: a raising length requirement on the tail is only made on paths that consume the tail"""
+    out = RuleOut(
+        "R-OVERGUARD",
+        "a setup function / helper that rejects the instruction when the variable tail is shorter than some bound "
+        "(`if T.size < b: raise InstructionError`) reads the tail on every normal path from that test to a return: "
+        "a path that passes the test and returns without touching the tail demands bytes the instruction does not consume, "
+        "so the instruction no longer decodes from exactly its own bytes (nor at the end of a buffer)",
+    )
+    tfs = tail_functions(repo)
+    n = 0
+    for fid, (f, tails) in sorted(tfs.items(), key=lambda kv: kv[1][0].key):
+        tv = tail_vars(f.node, tails)
+        guards = []
+        for x in ast.walk(f.node):
+            if isinstance(x, ast.If) and x.body and isinstance(x.body[-1], ast.Raise) and not x.orelse:
+                for c in ast.walk(x.test):
+                    if isinstance(c, ast.Compare) and len(c.ops) == 1 and isinstance(c.ops[0], ast.Lt) and any(norm(c.left) in ("%s.size" % t, "len(%s)" % t) for t in tv):
+                        guards.append(x)
+        if not guards:
+            continue
+        cfg = CFG(f.node, may_raise=lambda x: False)
+        # nodes that read the tail: a slice / subscript of a tail variable, or a call that receives it (helper consumes)
+        readers = set()
+        for nd in cfg.nodes:
+            if nd.ast is None:
+                continue
+            tgt = nd.ast.test if nd.kind == "test" and hasattr(nd.ast, "test") else nd.ast
+            if nd.kind in ("for", "while", "with", "try"):
+                continue
+            for x in _walk_no_nested(tgt) if not isinstance(tgt, (ast.If, ast.While, ast.For)) else _walk_no_nested(getattr(tgt, "test", tgt)):
+                if isinstance(x, ast.Subscript) and isinstance(x.value, ast.Name) and x.value.id in tv:
+                    readers.add(nd.id)
+                if isinstance(x, ast.Call) and not (isinstance(x.func, ast.Name) and x.func.id == "len") and any(isinstance(a, ast.Name) and a.id in tv for a in x.args):
+                    readers.add(nd.id)
+        for g in guards:
+            nd = cfg.stmt_node.get(id(g))
+            if nd is None:
+                continue
+            n += 1
+            starts = [m for m, lab in cfg.succ[nd.id] if lab == "f"]
+            path = None
+            for st in starts:
+                if st.id in readers:
+                    continue
+                if st.id == cfg.exit.id:
+                    path = [(nd, "f"), (st, None)]
+                    break
+                path = cfg.some_path(st, {cfg.exit.id}, avoid=readers, follow=lambda a, b, lab: lab != "exc")
+                if path is not None:
+                    break
+            out.inst("%s::%s@%d" % (f.key, norm(g.test), g.lineno), {"function": f.dqual, "requirement": norm(g.test), "consumed_on_all_paths": path is None})
+            if path is not None:
+                out.report(f.file, f.dqual, "requirement %s" % norm(g.test), g.lineno, "%s rejects the instruction unless `not (%s)`, but a path from that test reaches a return without reading the tail (%s): the requirement covers bytes this instruction does not consume" % (f.dqual, norm(g.test), cfg.describe_path(path)))
+    out.stats["requirements"] = n
+    if n < 40:
+        raise AnalysisError("R-OVERGUARD: only %d tail length requirements found" % n)
+    return out
